@@ -27,4 +27,6 @@ def run(ctx):
     ctx.replay_vectors("MC_Codec", "MC_Codec.cfg", perform, "grid", classify, consts='CONSTANT Area = "fac"',
                        need_actions=("PickVector",))
     ctx.validate_events(events(ctx), "calls", classify, shard=1500)
+    from .. import repotests
+    repotests.codec_stage(ctx, "C12")       # the calls the repository's own tests make, judged by the specification
     ctx.exhaustive = False
